@@ -1556,7 +1556,10 @@ impl NotificationProtocol {
                     "validation for substream still pending",
                 );
                 self.timers.push(Box::pin(async move {
+                    #[cfg(not(litep2p_verif))]
                     futures_timer::Delay::new(Duration::from_secs(5)).await;
+                    #[cfg(litep2p_verif)]
+                    crate::verif::timer::Delay::new(Duration::from_secs(5)).await;
                     peer
                 }));
 
